@@ -178,27 +178,41 @@ func (sm *Sim) doFetch(s *Sess) {
 	}
 	shape := macro
 	if shape == "" {
-		var k []string
+		kinds := map[string]bool{}
 		for it := range want {
-			k = append(k, it)
+			switch it {
+			case "ENVELOPE":
+				kinds["envelope"] = true
+			case "BODY", "BODYSTRUCTURE":
+				kinds[strings.ToLower(it)] = true
+			case "RFC822", "RFC822.HEADER", "RFC822.TEXT":
+				kinds["rfc822.*"] = true
+			default:
+				kinds["attrs"] = true
+			}
+		}
+		for _, q := range secs {
+			k := "section"
+			if q.fields != nil {
+				k = "header.fields"
+			} else if q.spec != "" {
+				k = strings.ToLower(q.spec)
+			}
+			if q.partial {
+				k += "<>"
+			}
+			kinds[k] = true
+		}
+		var k []string
+		for x := range kinds {
+			k = append(k, x)
 		}
 		sort.Strings(k)
 		shape = strings.Join(k, "+")
-		for _, q := range secs {
-			shape += "+BODY[" + q.spec
-			if q.fields != nil {
-				shape += ".FIELDS"
-			}
-			if len(q.path) > 0 {
-				shape += "@part"
-			}
-			if q.partial {
-				shape += "<>"
-			}
-			shape += "]"
-		}
 	}
-	sm.rep.Class(fmt.Sprintf("%s/%s/stale=%v/%s", name, shape, s.pending, tg.Status))
+	for _, k := range strings.Split(shape, "+") {
+		sm.rep.Class(fmt.Sprintf("%s/item=%s/stale=%v/%s", name, k, s.pending, tg.Status))
+	}
 	if tg.Status != "OK" {
 		sm.observe(s, pre, name)
 		if bigNums && tg.Status == "BAD" {
@@ -283,6 +297,7 @@ func (sm *Sim) doFetch(s *Sess) {
 			if msg := CheckEnvelope(tok, m.P.Env); msg != "" {
 				return msg
 			}
+			sm.rep.Metric("compared_envelopes", 1)
 		}
 		for _, it := range []string{"BODY", "BODYSTRUCTURE"} {
 			if !want[it] {
@@ -295,6 +310,7 @@ func (sm *Sim) doFetch(s *Sess) {
 			if msg := CheckBodyStructure(tok, m.P, it == "BODYSTRUCTURE", it); msg != "" {
 				return msg
 			}
+			sm.rep.Metric("compared_bodystructures", 1)
 		}
 		for _, q := range secs {
 			tok, present := fl.Items[q.key]
@@ -311,8 +327,10 @@ func (sm *Sim) doFetch(s *Sess) {
 			}
 			res := Section(m.P, q.path, q.spec, q.fields, q.not)
 			if !res.Defined {
+				sm.rep.Metric("sections_undefined_by_rfc", 1)
 				continue
 			}
+			sm.rep.Metric("compared_sections", 1)
 			got, gotNil, okv := nstr(tok)
 			if !okv {
 				return fmt.Sprintf("%s value is %s", q.key, tok.String())
@@ -331,6 +349,9 @@ func (sm *Sim) doFetch(s *Sess) {
 			}
 			if !res.Exists {
 				exp = nil
+			}
+			if len(exp) > 0 {
+				sm.rep.Metric("compared_sections_nonempty", 1)
 			}
 			if gotNil && len(exp) == 0 {
 				continue
@@ -623,7 +644,12 @@ func (sm *Sim) doSearch(s *Sess) {
 	if !ok {
 		return
 	}
-	sm.rep.Class(fmt.Sprintf("%s/%s/ret=%q/stale=%v/%s", name, keyClasses(top.uses), strings.TrimSpace(ret), s.pending, tg.Status))
+	for _, k := range strings.Split(top.uses, "+") {
+		if k != "" {
+			sm.rep.Class(fmt.Sprintf("%s/key=%s/%s", name, k, tg.Status))
+		}
+	}
+	sm.rep.Class(fmt.Sprintf("%s/ret=%q/stale=%v/%s", name, strings.TrimSpace(ret), s.pending, tg.Status))
 	o := sm.observe(s, pre, name)
 	if sm.stopped {
 		return
@@ -713,6 +739,10 @@ func (sm *Sim) doSearch(s *Sess) {
 		return o
 	}
 	wantAll := ret == "" || retAll
+	sm.rep.Metric("compared_searches", 1)
+	if len(required) > 0 {
+		sm.rep.Metric("compared_searches_nonempty", 1)
+	}
 	if wantAll && (haveAll || len(required) > 0) {
 		if fmt.Sprint(filter(got)) != fmt.Sprint(required) {
 			sm.fail(GroupModel, "search-result@"+keyClasses(top.uses), fmt.Sprintf("%s returned %v, model says %v (view %v, max uid %d)", cmd, got, required, s.view, ctx.MaxUID))
@@ -838,9 +868,6 @@ func (sm *Sim) audit() {
 }
 
 func encName(sm *Sim, n string) string {
-	if sm.cfg.Rev2 {
-		return n
-	}
 	return utf7ref.Encode(n)
 }
 
